@@ -98,6 +98,19 @@ class GetterProfile(StoreProfile):
                 s = "/".join(segs) + ("?" + s.split("?", 1)[1] if "?" in s else "")
                 return {"op": "get", "party": rng.choice(["GP:" + cfg, "GA", "GA"]), "s": s, "attributes": None,
                         "enc": rng.choice(["enc_str", "enc_uri"]), "held": rng.random() < 0.4, "overlap": True}
+        if len(base.split("/")) >= 2 and rng.random() < 0.08:
+            # a shallow '>' search through GetFromAll whose results span several types (levels with and without a
+            # configured Getter): 'hamlet/*/>' ...
+            segs = base.split("/")
+            d = rng.randint(2, min(4, len(segs)))
+            segs = segs[:d]
+            for j in range(1, d - 1):
+                if rng.random() < 0.7:
+                    segs[j] = "*"
+            segs[d - 1] = ">"
+            run.probes["shallow_last_through_getfromall"] += 1
+            return {"op": "get", "party": "GA", "s": "/".join(segs), "attributes": attrs, "enc": rng.choice(ENCODERS),
+                    "held": rng.random() < 0.4}
         party = rng.choice(["GP:" + cfg, "GP:" + cfg, "GA"])
         return {"op": "get", "party": party, "s": s, "attributes": attrs, "enc": rng.choice(ENCODERS), "held": rng.random() < 0.4}
 
